@@ -10,6 +10,7 @@ import (
 	"path/filepath"
 	"runtime"
 	"sort"
+	"strconv"
 	"strings"
 	"sync"
 	"syscall"
@@ -241,8 +242,22 @@ func Run(o RunOpts) (*Aggregate, error) {
 		return w, nil
 	}
 
+	watchdogFires := 0
+	gaveUp := false
 	send := func(w *workerProc) bool {
 		var c Case
+		if watchdogFires >= 3 {
+			// the code under test hangs: do not feed it the rest of the workload (every further case would cost a full
+			// watchdog period); the run ends inconclusive
+			if !gaveUp {
+				gaveUp = true
+				left := len(requeue) + len(queue) - next
+				agg.Inconclusive = append(agg.Inconclusive, fmt.Sprintf("%d cases not executed: the watchdog fired %d times, the code under test appears to hang", left, watchdogFires))
+			}
+			requeue = nil
+			next = len(queue)
+			return false
+		}
 		if len(requeue) > 0 {
 			c = requeue[0]
 			requeue = requeue[1:]
@@ -285,9 +300,14 @@ func Run(o RunOpts) (*Aggregate, error) {
 
 	caseTimeout := o.CaseTimout
 	if caseTimeout == 0 {
-		caseTimeout = 15 * time.Minute
+		// generous against a loaded machine (the slowest quick case takes about 40 s on an idle one, the slowest
+		// thorough case about 6 min), small enough that a hang in the code under test does not cost hours
+		caseTimeout = 6 * time.Minute
 		if o.Tier == "thorough" {
-			caseTimeout = 45 * time.Minute
+			caseTimeout = 30 * time.Minute
+		}
+		if v, err := strconv.Atoi(os.Getenv("VERIF_CASE_TIMEOUT_S")); err == nil && v > 0 {
+			caseTimeout = time.Duration(v) * time.Second
 		}
 	}
 	verbose := os.Getenv("VERIF_VERBOSE") != ""
@@ -322,6 +342,7 @@ func Run(o RunOpts) (*Aggregate, error) {
 						fmt.Fprintf(os.Stderr, "death: case %d (%s) sub %d (%s) after %s\n", c.ID, c.Kind, w.lastSub, w.lastNote, time.Since(w.started).Round(time.Millisecond))
 					}
 					if w.lastNote == "__watchdog__" {
+						watchdogFires++
 						agg.Inconclusive = append(agg.Inconclusive, fmt.Sprintf("case %d: watchdog fired after %s", c.ID, caseTimeout))
 					} else {
 						st := w.stderr.String()
